@@ -19,6 +19,11 @@ var pfRecovery = withProfile(lab.ProfileDefault, func(p *lab.Profile) {
 	p.ContDelays = []int{0, 1, 2}
 })
 
+var pfRecoveryAny = withProfile(pfRecovery, func(p *lab.Profile) {
+	p.Name = "recovery-any"
+	p.PContFail, p.MaxContFailRun, p.PRetry, p.PlanContMayFail, p.PGate = 30, 4, 35, true, 35
+})
+
 // constantScripts makes every action's outcome a function of the action alone: the script is one step repeated.
 func constantScripts(sc *lab.Scenario) {
 	sc.EachAction(func(r lab.Ref, a *lab.ActionSpec) {
@@ -32,8 +37,16 @@ func constantScripts(sc *lab.Scenario) {
 }
 
 func genCrashCase(t *rapid.T) lab.CrashCase {
-	c := lab.CrashCase{Sc: pfRecovery.Gen(t)}
-	constantScripts(&c.Sc)
+	c := lab.CrashCase{}
+	// one scenario in four keeps invocation-dependent scripts (retries that succeed later, continuous checks failing at
+	// run k): the outcome-equality clause is then not judged, all the other clauses are
+	if rapid.IntRange(0, 3).Draw(t, "anyOutcome") == 3 {
+		c.Sc = pfRecoveryAny.Gen(t)
+		c.AnyOutcome = true
+	} else {
+		c.Sc = pfRecovery.Gen(t)
+		constantScripts(&c.Sc)
+	}
 	if os.Getenv("VERIF_TIER") == "thorough" && rapid.IntRange(0, 3).Draw(t, "allPrefixes") == 0 {
 		c.All = true
 	} else {
@@ -64,6 +77,9 @@ func crashSpec(id string) vprop.Spec[lab.CrashCase] {
 			}
 			if len(c.Second) > 0 {
 				res.Label("with-second-crash")
+			}
+			if c.AnyOutcome {
+				res.Label("invocation-dependent-outcomes")
 			}
 			lab.RunCrashCase(&c, id, &res)
 			return res
